@@ -1,6 +1,7 @@
 SPECIFICATION RealSpec
 CONSTANTS
   Mutation = "none"
+  AdversaryOn = FALSE
   Emit = FALSE
 INVARIANT Inv
 CHECK_DEADLOCK FALSE
